@@ -72,7 +72,9 @@ class PairwiseComparisonGraph(Graph):
                     updated_ballot_list.append(updated_ballot)
             else:
                 updated_ballot_list.append(ballot)
-        return PreferenceProfile(ballots=tuple(updated_ballot_list))
+        return PreferenceProfile(
+            ballots=tuple(updated_ballot_list), candidates=profile.candidates
+        )
 
     # Helper functions to make pairwise comparison graph
     def head2head_count(self, cand1: str, cand2: str) -> Fraction:
